@@ -8,6 +8,8 @@
 #include <theta_sketch.hpp>
 #include <theta_union.hpp>
 #include <tuple_sketch.hpp>
+#include <tuple_union.hpp>
+#include <array_of_doubles_sketch.hpp>
 #include <hll.hpp>
 #include <cpc_sketch.hpp>
 #include <cpc_union.hpp>
@@ -180,6 +182,9 @@ void prop_sketch(const Case& cs) {
                                                      "p = 1, " << n << " distinct items <= k = " << (1ull << lg_k) << ": estimation mode " << est_mode << ", estimate " << sk.get_estimate() << " [" << sk.get_lower_bound(3) << ", " << sk.get_upper_bound(3) << "]" << (reused ? " (object reused after reset)" : ""));
       auto cmp = sk.compact();
       check_interval(cmp, "theta compact", cmp.get_estimate());
+      VF_CHECK(cmp.is_estimation_mode() == est_mode && cmp.is_empty() == sk.is_empty() && cmp.get_estimate() == sk.get_estimate(), "theta-forms-agree", "compact: estimation mode " << cmp.is_estimation_mode() << " empty " << cmp.is_empty() << " estimate " << cmp.get_estimate() << " vs update form " << est_mode << " " << sk.is_empty() << " " << sk.get_estimate());
+      if (!cmp.is_estimation_mode()) VF_CHECK(cmp.get_estimate() == static_cast<double>(n), "theta-exact", "compact exact mode estimate " << cmp.get_estimate() << " for " << n << " distinct");
+      if (sk.get_num_retained() == 0 && !sk.is_empty()) vf::label("theta-nothing-retained-not-empty");
       auto u = theta_union::builder().set_lg_k(lg_k).set_resize_factor(rf).build();
       if (reused) { u.update(sk2); u.update(sk); auto first = update_theta_sketch::builder().set_lg_k(lg_k).build(); for (uint64_t i = 0; i < (40ull << lg_k) / 10; ++i) first.update(base + 5555555 + i); u.update(first); u.reset(); }
       u.update(sk); u.update(sk2);
@@ -199,6 +204,40 @@ void prop_sketch(const Case& cs) {
       if (!est_mode) VF_CHECK(sk.get_estimate() == static_cast<double>(n), "tuple-exact", "exact mode estimate " << sk.get_estimate() << " for " << n);
       auto cmp = sk.compact();
       check_interval(cmp, "tuple compact", cmp.get_estimate());
+      // every other form of the same state reports the same mode, estimate and bounds; a form that claims exact mode reports n
+      auto same_as_update = [&](const auto& o, const char* who) {
+        VF_CHECK(o.is_estimation_mode() == est_mode && o.is_empty() == sk.is_empty(), "tuple-forms-agree", who << ": estimation mode " << o.is_estimation_mode() << " / empty " << o.is_empty() << ", the update sketch says " << est_mode << " / " << sk.is_empty() << " (n " << n << ", p " << p << ")");
+        if (!o.is_estimation_mode()) VF_CHECK(o.get_estimate() == static_cast<double>(n), "tuple-exact", who << ": exact mode estimate " << o.get_estimate() << " for " << n);
+        VF_CHECK(o.get_estimate() == sk.get_estimate(), "tuple-forms-agree", who << ": estimate " << o.get_estimate() << " vs " << sk.get_estimate());
+        for (uint8_t sd = 1; sd <= 3; ++sd) VF_CHECK(o.get_lower_bound(sd) == sk.get_lower_bound(sd) && o.get_upper_bound(sd) == sk.get_upper_bound(sd), "tuple-forms-agree", who << ": bounds at " << int(sd) << " [" << o.get_lower_bound(sd) << ", " << o.get_upper_bound(sd) << "] vs [" << sk.get_lower_bound(sd) << ", " << sk.get_upper_bound(sd) << "]");
+      };
+      same_as_update(cmp, "tuple compact");
+      same_as_update(sk.compact(false), "tuple compact unordered");
+      compact_tuple_sketch<double> conv(sk, (cfg / 64) & 1);
+      check_interval(conv, "tuple converted", conv.get_estimate());
+      same_as_update(conv, "tuple converted");
+      if (sk.get_num_retained() == 0 && !sk.is_empty()) vf::label("tuple-nothing-retained-not-empty");
+      {
+        auto u = tuple_union<double>::builder().set_lg_k(lg_k).build();
+        u.update(sk); u.update(cmp);
+        auto r = u.get_result();
+        check_interval(r, "tuple union result", r.get_estimate());
+        if (!r.is_estimation_mode()) VF_CHECK(r.get_estimate() == static_cast<double>(n), "tuple-union-exact", "exact union estimate " << r.get_estimate() << " for " << n);
+        VF_CHECK(r.is_empty() == (n == 0), "tuple-union-empty", "union result is_empty " << r.is_empty() << " for n " << n);
+      }
+      {
+        auto aod = update_array_of_doubles_sketch::builder(1).set_lg_k(lg_k).set_p(p).build();
+        const double one = 1.0;
+        for (uint64_t i = 0; i < std::min<uint64_t>(n, 3000); ++i) aod.update(base + i, &one);
+        const uint64_t m = std::min<uint64_t>(n, 3000);
+        check_interval(aod, "aod", aod.get_estimate());
+        if (!aod.is_estimation_mode()) VF_CHECK(aod.get_estimate() == static_cast<double>(m), "tuple-exact", "aod exact mode estimate " << aod.get_estimate() << " for " << m);
+        auto ac = aod.compact();
+        check_interval(ac, "aod compact", ac.get_estimate());
+        VF_CHECK(ac.is_estimation_mode() == aod.is_estimation_mode() && ac.is_empty() == aod.is_empty() && ac.get_estimate() == aod.get_estimate(), "tuple-forms-agree",
+                 "aod compact: estimation mode " << ac.is_estimation_mode() << " empty " << ac.is_empty() << " estimate " << ac.get_estimate() << " vs update form " << aod.is_estimation_mode() << " " << aod.is_empty() << " " << aod.get_estimate());
+        if (!ac.is_estimation_mode()) VF_CHECK(ac.get_estimate() == static_cast<double>(m), "tuple-exact", "aod compact exact mode estimate " << ac.get_estimate() << " for " << m);
+      }
     }
   } else if (fam == 2) {  // HLL
     uint8_t lg_k = static_cast<uint8_t>(4 + cfg % 11);
